@@ -2059,6 +2059,10 @@ class Parallel(Logger):
         # are defined locally (inside another function) and lambda expressions.
         self._pickle_cache = dict()
 
+        # Batches sliced ahead of time by a previous call that was aborted must
+        # not leak into this one.
+        self._ready_batches = queue.Queue()
+
         output = self._get_outputs(iterator, pre_dispatch)
         self._call_ref = weakref.ref(output)
 
